@@ -824,7 +824,7 @@ def gen_history_case(rng, idx):
     pos = [Fraction(0), t] + [Fraction(rng.randint(0, int(t * 16)), 16) for _ in range(n - 2)]
     for s_, p_ in zip(basis, pos):
         s_.coord = [origin[ax] + sg[ax] * u[ax] * p_ for ax in range(3)]
-    hows = ["setter", "inplace"] if idx % 2 == 0 else ["inplace", "setter"]
+    hows = ["setter", "inplace"] if (idx // 2) % 2 == 0 else ["inplace", "setter"]
     tol0 = tol if rng.random() < 0.5 else gen_tol(rng)
     steps = [{"tol": str(tol0)},
              {"tol": str(tol), "set": [{"shell": w, "exps": [str(e) for e in new[w]], "how": hows[i % 2]}
